@@ -23,6 +23,10 @@ def tag(i, j):
 def cell_text(sc, i, j, fmt):
     if j == 0 and sc.get("text_index"):
         return "T%05d" % tag(i, 0)
+    if j == sc.get("negcol"):
+        return "-" + fmt % tag(i, j)           # one column negative throughout: a hyphen in every data line
+    if j == sc.get("hashcol"):
+        return "#T%05d" % tag(i, j)            # a text column whose tokens start with '#' (spreadsheet error markers)
     return fmt % tag(i, j)
 
 
@@ -74,7 +78,7 @@ def build_text(sc):
                 # fixed-width export whose negative values run into their left neighbour: 1000-1001-1002
                 lines.append("   %d" % (10000 + tag(i, 0)) + "".join("-%d" % (10000 + tag(i, j)) for j in range(1, c)))     # >= 5 digits each
             elif sc.get("comma"):
-                lines.append(sc.get("lead", " ") + sc["comma"].join("" if (i, j) in empty else fmt % tag(i, j) for j in range(c)))
+                lines.append(sc.get("lead", " ") + sc["comma"].join("" if (i, j) in empty else cell_text(sc, i, j, fmt) for j in range(c)))
             else:
                 lines.append(sc.get("lead", " ") + sc.get("sep", " ").join(cell_text(sc, i, j, fmt) for j in range(c)))
         lines += noise.get(r, [])
@@ -161,6 +165,11 @@ class C07(Prop):
         elif not wrap and not sc.get("ragged") and not sc.get("comma") and g.random() < 0.1:
             sc["text_index"] = True          # the index column holds text (time stamps); forces the reference engine
         sc["cellfmt"] = g.choice(["%d", "%d", "%.1f", "%.3f"])
+        if not wrap and not sc.get("ragged") and not sc.get("runon") and not sc.get("empty") and not sc.get("second") and sc["cols"] >= 2 and g.random() < 0.12:
+            sc["negcol"] = g.randrange(1, sc["cols"])
+        elif not wrap and not sc.get("ragged") and not sc.get("runon") and not sc.get("empty") and not sc.get("second") and not sc.get("comma") \
+                and not sc.get("dtypes") and sc["cols"] >= 2 and g.random() < 0.08:
+            sc["hashcol"] = g.randrange(1, sc["cols"])
         if not wrap and not sc.get("ragged") and not sc.get("text_index") and not sc.get("second") and g.random() < 0.1:
             # the caller states the column types: a dict by mnemonic or a list (as long as the declared curves, the columns, or neither)
             if sc["declared"] >= 1 and g.random() < 0.5:
@@ -295,8 +304,14 @@ class C07(Prop):
                     res.violate("C07.binding", "text index column came back as %r, expected %r" % (a.tolist()[:4], want_t[:4]))
                     return res
                 continue
+            if j == sc.get("hashcol") and j < c:
+                want_t = ["#T%05d" % tag(i, j) for i in range(r)]
+                if [str(x) for x in a.tolist()] != want_t:
+                    res.violate("C07.binding", "text column #%d came back as %r, expected %r (engine=%s)" % (j, a.tolist()[:4], want_t[:4], sc["engine"]))
+                    return res
+                continue
             if j < c:
-                sign = -1.0 if (sc.get("runon") and j > 0) else 1.0
+                sign = -1.0 if ((sc.get("runon") and j > 0) or j == sc.get("negcol")) else 1.0
                 off = 10000 if sc.get("runon") else 0
                 want = np.array([sign * (off + tag(i, j)) for i in range(r)], dtype=float)
                 if a.dtype.kind != "f" or not np.array_equal(a, want):
